@@ -3,7 +3,25 @@ include Zio_inc
 let exn_s = function C.ZeroDivisionError -> "ZeroDivisionError" | C.ValueError -> "ValueError"
   | C.OverflowError -> "OverflowError" | C.AssertionError -> "AssertionError" | C.TypeError -> "TypeError"
 let val_s = function C.VInt z -> "I " ^ text_of_z z | C.VFloat (C.FTrueDivInt (a, b)) -> "F " ^ text_of_z a ^ " " ^ text_of_z b
+  | C.VFloat _ -> "F?"
 let fres_s = function C.Folded v -> val_s v | C.NotFolded -> "N" | C.Crash e -> "C " ^ exn_s e
+(* strings / bytes travel as hex text ("-" = empty) *)
+let unhex (h : string) : string = if h = "-" then "" else String.init (String.length h / 2) (fun i -> Char.chr (int_of_string ("0x" ^ String.sub h (2 * i) 2)))
+let hex (s : string) : string = if s = "" then "-" else String.concat "" (List.map (fun c -> Printf.sprintf "%02x" (Char.code c)) (List.init (String.length s) (String.get s)))
+let rec ocaml_string (s : C.string) : string = match s with
+  | C.EmptyString -> ""
+  | C.String (C.Ascii (b0, b1, b2, b3, b4, b5, b6, b7), r) ->
+      let v = List.fold_left (fun acc (b, i) -> if b then acc lor (1 lsl i) else acc) 0 [(b0,0);(b1,1);(b2,2);(b3,3);(b4,4);(b5,5);(b6,6);(b7,7)] in
+      String.make 1 (Char.chr v) ^ ocaml_string r
+let rec pos_of_int n = if n = 1 then C.XH else if n land 1 = 0 then C.XO (pos_of_int (n lsr 1)) else C.XI (pos_of_int (n lsr 1))
+let n_of_int n = if n = 0 then C.N0 else C.Npos (pos_of_int n)
+let rec int_of_pos = function C.XH -> 1 | C.XO p -> 2 * int_of_pos p | C.XI p -> 2 * int_of_pos p + 1
+let int_of_n = function C.N0 -> 0 | C.Npos p -> int_of_pos p
+let bytes_of (h : string) : C.n list = let s = unhex h in List.init (String.length s) (fun i -> n_of_int (Char.code s.[i]))
+let hex_of_bytes (l : C.n list) : string = hex (String.concat "" (List.map (fun n -> String.make 1 (Char.chr (int_of_n n))) l))
+let os = function None -> "N" | Some s -> "S " ^ hex (ocaml_string s)
+let obs = function None -> "N" | Some l -> "B " ^ hex_of_bytes l
+let oz = function None -> "raise" | Some z -> text_of_z z
 let ob = function None -> "none" | Some true -> "true" | Some false -> "false"
 let idx = function
   | "i" :: i :: rest -> (C.IdxInt (z_of_text i), rest)
@@ -20,17 +38,39 @@ let handle = function
   | ["pybin"; op; l; r] -> (match C.py_int_binop (coq_string op) (z_of_text l) (z_of_text r) with
       | None -> "none" | Some (C.ROk v) -> val_s v | Some (C.RRaise e) -> "C " ^ exn_s e)
   | "consider" :: maj :: min :: op :: rest ->
+      (* the REGENERATED decision core (Gen.Reach.consider_core) *)
       let (i, rest) = idx rest in
-      text_of_z (C.consider (z_of_text maj) (z_of_text min) i (coq_string op) (thing rest))
+      oz (C.consider_core [z_of_text maj; z_of_text min] i (coq_string op) (thing rest))
+  | "considerf" :: maj :: min :: op :: rest ->
+      (* operands the other way round: op = the written operator, reversed through the generated reverse_op table *)
+      let (i, rest) = idx rest in
+      (match C.reverse_op (coq_string op) with
+       | None -> text_of_z (C.consider (z_of_text maj) (z_of_text min) i (coq_string op) (thing rest))  (* unknown operator: guard *)
+       | Some r -> oz (C.consider_core [z_of_text maj; z_of_text min] i r (thing rest)))
+  | "runtimef" :: maj :: min :: mic :: op :: rest ->
+      let (i, rest) = idx rest in
+      ob (C.runtime_test_flipped (C.vinfo (z_of_text maj) (z_of_text min) (z_of_text mic) (C.Zpos C.XH) C.Z0) i (coq_string op) (thing rest))
+  | "f5f" :: maj :: min :: op :: rest ->
+      let (i, rest) = idx rest in
+      (match C.reverse_op (coq_string op) with
+       | None -> "false"
+       | Some r -> ob (Some (C.f5_class (z_of_text maj) (z_of_text min) i r (thing rest))))
   | "runtime" :: maj :: min :: mic :: op :: rest ->
       let (i, rest) = idx rest in
       ob (C.runtime_test (C.vinfo (z_of_text maj) (z_of_text min) (z_of_text mic) (C.Zpos C.XH) C.Z0) i (coq_string op) (thing rest))
   | "f5" :: maj :: min :: op :: rest ->
       let (i, rest) = idx rest in
       ob (Some (C.f5_class (z_of_text maj) (z_of_text min) i (coq_string op) (thing rest)))
-  | ["platform"; p; op; lit] -> text_of_z (C.consider_platform_cmp (coq_string p) (coq_string op) (coq_string lit))
-  | ["or"; a; b] -> text_of_z (C.or_table (z_of_text a) (z_of_text b))
-  | ["and"; a; b] -> text_of_z (C.and_table (z_of_text a) (z_of_text b))
-  | ["not"; a] -> text_of_z (C.inverted (z_of_text a))
+  | ["foldstr"; "ss"; op; l; r] -> os (C.constant_fold_binary_op_str_str (coq_string op) (coq_string (unhex l)) (coq_string (unhex r)))
+  | ["foldstr"; "si"; op; l; r] -> os (C.constant_fold_binary_op_str_int (coq_string op) (coq_string (unhex l)) (z_of_text r))
+  | ["foldstr"; "is"; op; l; r] -> os (C.constant_fold_binary_op_int_str (coq_string op) (z_of_text l) (coq_string (unhex r)))
+  | ["foldbytes"; "bb"; op; l; r] -> obs (C.constant_fold_binary_op_extended_bytes_bytes (coq_string op) (bytes_of l) (bytes_of r))
+  | ["foldbytes"; "bi"; op; l; r] -> obs (C.constant_fold_binary_op_extended_bytes_int (coq_string op) (bytes_of l) (z_of_text r))
+  | ["foldbytes"; "ib"; op; l; r] -> obs (C.constant_fold_binary_op_extended_int_bytes (coq_string op) (z_of_text l) (bytes_of r))
+  | ["platform"; p; op; lit] -> text_of_z (C.platform_cmp_core (coq_string p) (coq_string op) (coq_string lit))
+  | ["startswith"; p; lit] -> text_of_z (C.platform_startswith_core (coq_string p) (coq_string lit))
+  | ["or"; a; b] -> text_of_z (C.infer_op_table (coq_string "or") (z_of_text a) (z_of_text b))
+  | ["and"; a; b] -> text_of_z (C.infer_op_table (coq_string "and") (z_of_text a) (z_of_text b))
+  | ["not"; a] -> oz (C.inverted_truth_mapping (z_of_text a))
   | _ -> "!BAD"
 let () = main handle
